@@ -130,7 +130,17 @@ func VH_C20_PersistentForest() {
 	}
 	for i, s := range slabs {
 		if i == victim {
-			continue // a referenced slab that is missing
+			// a referenced slab that is missing: never stored, or removed and
+			// not yet committed (nil in the write set over a stale cached
+			// copy), or a committed removal remembered by the cache as nil
+			switch vhChoose("missing", 3) {
+			case 1:
+				st.cache[s.id] = s
+				st.deltas[s.id] = nil
+			case 2:
+				st.cache[s.id] = nil
+			}
+			continue
 		}
 		if vhChoose("place", 2) == 0 {
 			st.deltas[s.id] = s
